@@ -58,7 +58,11 @@ def run(ctx):
         try:
             with warnings.catch_warnings():
                 warnings.simplefilter('ignore')
-                val, info = getattr(nd, cls)(g, method=m, full_output=True)(x)
+                xcall = x
+                if cls == 'Gradient' and rng.random() < 0.5:
+                    # a point given as a 2-d array (a function of n*m variables): the gradient is flat, and so is its record
+                    xcall = x.reshape(rng.choice([(dim, 1), (1, dim)] + ([(2, dim // 2)] if dim % 2 == 0 else [])))
+                val, info = getattr(nd, cls)(g, method=m, full_output=True)(xcall)
         except Exception as ex:
             ctx.violation('%s raised %r with full_output=True' % (cls, ex), cls=cls, method=m, x=x.tolist())
             continue
@@ -68,9 +72,10 @@ def run(ctx):
             ctx.violation('f_value differs from f(x)', got=str(info.f_value), **rep)
         ee, fs = np.asarray(info.error_estimate), np.asarray(info.final_step)
         try:
-            np.broadcast(np.asarray(val), ee)
-            np.broadcast(np.asarray(val), fs)
-            ok_shape = ee.size == np.asarray(val).size and fs.size == np.asarray(val).size
+            vsize = np.asarray(val).size
+            # one entry per entry of the result, and broadcasting them together pairs the entries off (no (n,) against (n, 1) table)
+            ok_shape = (np.broadcast(np.asarray(val), ee).size == vsize and np.broadcast(np.asarray(val), fs).size == vsize and
+                        ee.size == vsize and fs.size == vsize)
         except ValueError:
             ok_shape = False
         if not ok_shape:
